@@ -11,7 +11,9 @@ fn check(files: &[(&str, &str)]) {
         let mut out = vec![];
         for (f, ds) in d.iter() { for x in ds { out.push((ids.iter().position(|i| i == f), x.location.file == *f, usize::from(x.location.range.start()), usize::from(x.location.range.end()), x.message.clone())); } }
         out
-    }).expect("diagnostics did not return");
+    });
+    // a panic or a hang of the analysis is C02 / C03's subject, not a range that is invalid: no verdict from this input
+    let Some(r) = r else { return; };
     for (idx, same_file, s, e, msg) in r {
         let idx = idx.unwrap_or_else(|| panic!("WITNESS a diagnostic names a file outside the workspace: {msg}"));
         assert!(same_file, "WITNESS a diagnostic is filed under a file other than its own: {msg}");
